@@ -357,6 +357,96 @@ fn cells() -> Vec<Cell15> {
         }
     }
 
+    // ---- the same invocation rules with a zero-sized value type (what delimiter parsers return): only the
+    // closure's invocation count is observable there
+    for &r in &recvs {
+        let zrecv = |r: Recv| -> Parsed<(), E> {
+            match r {
+                Recv::Fall => Fallthrough,
+                Recv::Ok => Res(Ok(())),
+                Recv::Err => Res(Err(E1)),
+            }
+        };
+        let want_calls = if r == Recv::Ok { 1 } else { 0 };
+        let want = |r: Recv| match r {
+            Recv::Fall => "Fallthrough".to_string(),
+            Recv::Ok => "Res(Ok(()))".to_string(),
+            Recv::Err => "Res(Err(E(21)))".to_string(),
+        };
+        {
+            let calls = Cell::new(0);
+            let got = zrecv(r).and_do(|_| calls.set(calls.get() + 1));
+            push(format!("zst:and_do/{:?}", r), obs(show(&got), calls.get(), "".into()), obs(want(r), want_calls, "".into()));
+        }
+        {
+            let calls = Cell::new(0);
+            let got = zrecv(r).and_also(|_| {
+                calls.set(calls.get() + 1);
+                Ok(())
+            });
+            push(format!("zst:and_also/{:?}", r), obs(show(&got), calls.get(), "".into()), obs(want(r), want_calls, "".into()));
+        }
+        {
+            let calls = Cell::new(0);
+            let got: Parsed<(), E> = zrecv(r).and_then(|_| {
+                calls.set(calls.get() + 1);
+                Ok(())
+            });
+            push(format!("zst:and_then/{:?}", r), obs(show(&got), calls.get(), "".into()), obs(want(r), want_calls, "".into()));
+        }
+        {
+            let calls = Cell::new(0);
+            let got: Parsed<(), E> = zrecv(r).map(|_| {
+                calls.set(calls.get() + 1);
+            });
+            push(format!("zst:map/{:?}", r), obs(show(&got), calls.get(), "".into()), obs(want(r), want_calls, "".into()));
+        }
+        {
+            let calls = Cell::new(0);
+            let got = zrecv(r).or_parse(|| {
+                calls.set(calls.get() + 1);
+                Res(Ok(()))
+            });
+            let exp = if r == Recv::Fall { "Res(Ok(()))".to_string() } else { want(r) };
+            push(
+                format!("zst:or_parse/{:?}", r),
+                obs(show(&got), calls.get(), "".into()),
+                obs(exp, if r == Recv::Fall { 1 } else { 0 }, "".into()),
+            );
+        }
+    }
+    for &ok in &[true, false] {
+        let zres = |ok: bool| -> Result<(), E> {
+            if ok {
+                Ok(())
+            } else {
+                Err(E1)
+            }
+        };
+        let want = if ok { "Ok(())" } else { "Err(E(21))" };
+        {
+            let calls = Cell::new(0);
+            let got = ResultExt::and_do(zres(ok), |_: &mut ()| calls.set(calls.get() + 1));
+            push(
+                format!("zst:ResultExt::and_do/ok={}", ok),
+                obs(show_r(&got), calls.get(), "".into()),
+                obs(want.into(), ok as u32, "".into()),
+            );
+        }
+        {
+            let calls = Cell::new(0);
+            let got = ResultExt::and_also(zres(ok), |_: &mut ()| {
+                calls.set(calls.get() + 1);
+                Ok(())
+            });
+            push(
+                format!("zst:ResultExt::and_also/ok={}", ok),
+                obs(show_r(&got), calls.get(), "".into()),
+                obs(want.into(), ok as u32, "".into()),
+            );
+        }
+    }
+
     // ---- From<Result> and ResultExt on {Ok, Err}
     for &ok in &[true, false] {
         let res = |ok: bool| -> Result<T, E> {
